@@ -15,11 +15,12 @@ import (
 
 const (
 	// Bad marks an amount that is not an exact, in-range multiple of the trace's scale.
-	Bad = -(1 << 30)
+	Bad = -(1 << 24) // small enough that TLC's 32-bit sums over all accounts and messages cannot overflow
 	// Huge marks a number >= 2^30 that still fits 64 bits; Wide one that needs more than 8 bytes.
 	Huge = -1
 	Wide = -2
 	lim  = 1 << 30
+	qlim = 1 << 24 // amounts (quotients by the scale) stay below this, so that sums of them stay far below 2^31
 )
 
 var (
@@ -114,7 +115,7 @@ func (p *Proj) Q(v *big.Int) int64 {
 		return Bad
 	}
 	q, r := new(big.Int).QuoRem(v, p.Scale, new(big.Int))
-	if r.Sign() != 0 || q.CmpAbs(big.NewInt(lim)) >= 0 {
+	if r.Sign() != 0 || q.CmpAbs(big.NewInt(qlim)) >= 0 {
 		return Bad
 	}
 	return q.Int64()
